@@ -203,11 +203,11 @@ def run_flow(case):
             "crash": [e[0] + ": " + e[1] for e in w.errors],
             "n_deliveries": len(deliveries),
             "proto_err": any("HTTP/1 protocol error" in e for e in seen["err"]),
-            "trailer": trailer_seen(lay, ctx, resp, w),
+            "trailer": trailer_seen(lay, ctx, resp, w, any("HTTP/1 protocol error" in e for e in seen["err"])),
         }
 
 
-def trailer_seen(lay, ctx, resp, w):
+def trailer_seen(lay, ctx, resp, w, proto_err):
     """the chunked reader met a non-empty trailer section (mitmproxy: NotImplementedError once it is complete)"""
     if any(e[0] == "NotImplementedError" for e in w.errors): return True
     try:
@@ -215,7 +215,8 @@ def trailer_seen(lay, ctx, resp, w):
         h1 = lay.connections[conn]
         while not hasattr(h1, "body_reader") and hasattr(h1, "child_layer"): h1 = h1.child_layer
         rd = getattr(h1, "body_reader", None)
-        return bool(getattr(rd, "_reading_trailer", False)) and h1.state.__name__ == "read_body" and bytes(h1.buf) not in (b"", b"\r")
+        return bool(getattr(rd, "_reading_trailer", False)) and h1.state.__name__ == "read_body" \
+            and (proto_err or bytes(h1.buf) not in (b"", b"\r"))
     except Exception:
         return False
 
@@ -258,25 +259,36 @@ class Check(PropertyCheck):
     design_ref = "§5 C07"
     level_text = ("Lean theorems about an executable model of HttpStream's body handling (check_body_size with its early/late "
                   "case and abort-before-stream order, the consume and stream states, the late switch to streaming, the stream "
-                  "callable as an arbitrary function, store_streamed_bodies) and of human.parse_size over the regenerated "
-                  "SIZE_UNITS table, for ALL option values, expected sizes, chunk lists and callables (induction over the event "
-                  "list): over_limit_errors, buffer_bound_partial (+ buffer_bound_counterexample for the recorded finding), "
-                  "streamed_exact, relayed_exact_any_chunking, stored_iff_option, unstored_stream_holds_nothing, parseSize laws. "
-                  "The model is tied to the real HttpLayer/HttpStream/Http1 stack run through world.py: error hook, client error, "
-                  "the exact chunk list the peer receives, the buffer length after every delivery and the stored content are "
-                  "compared for both directions, three framings, all option combinations and fourteen stream policies (bytes, list, tuple, generator, one-shot iterator, empty generator results).")
-    level_note = ("trusted: Lean kernel; the differential tie (grid + exhaustive small chunkings + random); h11's body readers "
-                  "deliver one data event per received segment/chunk (observed, not modelled); the model works at the level of "
-                  "HttpStream events, HTTP/1 re-framing is checked by an independent strict chunked reader in the harness, not "
-                  "proved; HTTP/2 and HTTP/3 peers are not driven (same HttpStream code); flows whose response an addon sets before the "
-                  "body arrives (request consumed, nothing sent upstream) are outside the model. partial: buffer_bound is proved under "
-                  "the guard 'not (store_streamed_bodies and streaming)'; the unguarded statement is refuted by "
-                  "buffer_bound_counterexample and recorded as finding F-C07a.")
+                  "callable as an arbitrary function, store_streamed_bodies), of the HTTP/1 body readers that feed it "
+                  "(ContentLengthReader, ChunkedReader incl. chunk extensions / OWS / footer check / last-chunk, Http10Reader, as "
+                  "driven by Http1Connection.read_body) as an Incremental byte consumer, and of human.parse_size over the "
+                  "regenerated SIZE_UNITS table — for ALL option values, expected sizes, wire bytes, segmentations, chunk lists "
+                  "and callables (induction): over_limit_errors, buffer_bound_partial (+ buffer_bound_counterexample for the "
+                  "recorded finding), streamed_exact, relayed_exact_any_chunking, relayed_exact_events, stored_iff_option, "
+                  "unstored_stream_holds_nothing, reader_lawful / reader_segmentation_independent, wire_events_carry_body, "
+                  "wire_body_segmentation_independent, wire_relay_segmentation_independent (the same wire bytes in any two "
+                  "segmentations deliver the same bytes to the peer), parseSize laws. The model is tied to the real "
+                  "HttpLayer/HttpStream/Http1 stack run through world.py: error hook, client error, the exact chunk list the peer "
+                  "receives, the buffer length after every delivery, the stored content and the readers' verdict are compared for "
+                  "both directions, three framings, all option combinations, fourteen stream policies, chunk-aligned deliveries "
+                  "AND raw wire bytes (well-formed and mutated chunked encoding) in arbitrary segmentations.")
+    level_note = ("trusted: Lean kernel; the differential tie (grid + exhaustive small chunkings + random wires/segmentations). The "
+                  "body readers are modelled as byte automata — a reformulation of h11's buffer-based readers (extract-at-most / "
+                  "extract-next-line), validated against the real h11 0.16 readers under random segmentation, not derived from "
+                  "their source; a non-empty HTTP/1 trailer section (NotImplementedError in mitmproxy) is outside the model and "
+                  "excluded from comparison. HTTP/1 re-framing towards the peer is checked by an independent strict chunked "
+                  "reader in the harness, not proved; HTTP/2 and HTTP/3 peers are not driven (same HttpStream code); flows whose "
+                  "response an addon sets before the body arrives are outside the model. wire_relay_segmentation_independent "
+                  "is stated for runs that end `done` without a callable (with a late switch the outcome abort-vs-stream itself "
+                  "depends on the segmentation in the code). partial: buffer_bound is proved under the guard 'not "
+                  "(store_streamed_bodies and streaming)'; the unguarded statement is refuted by buffer_bound_counterexample "
+                  "and recorded as finding F-C07a.")
     technique = "Lean 4 proof (invariants over event lists, arbitrary stream callable) + translator table + end-to-end correspondence through the real HttpLayer"
     rule = ("grid: direction x framing (content-length, chunked, until-EOF for responses) x 2^3 option combinations "
             "(body_size_limit set?, stream_large_bodies set?, store_streamed_bodies) x 14 stream policies x body sizes in "
             "{0,1,limit-1,limit,limit+1,2*limit,threshold+-1}; every 1/2/3-way chunking of bodies of length <=5; then random "
-            "bodies/chunkings/option values (incl. k/m suffixes); size: parse_size on generated option strings. distinct = "
+            "bodies/chunkings/option values (incl. k/m suffixes); wire: a body framed by content-length / chunked (hex case, leading "
+            "zeros, extensions, OWS; 20 % with one mutation) / until-close, cut into 1-6 segments that ignore the framing; size: parse_size on generated option strings. distinct = "
             "distinct case; non-trivial = body non-empty or option string non-trivial.")
     budget = {"quick": 4000, "thorough": 120000}
     time_budget = {"quick": 25, "thorough": 600}
@@ -293,6 +305,7 @@ class Check(PropertyCheck):
                     "mitmproxy.proxy.layers.http._http1:Http1Client.send",
                     "mitmproxy.proxy.layers.http._http1:Http1Server.send",
                     "mitmproxy.proxy.layers.http._http1:Http1Connection.read_body",
+                    "mitmproxy.proxy.layers.http._http1:make_body_reader",
                     "mitmproxy.utils.human:parse_size",
                     "mitmproxy.addons.proxyserver:Proxyserver.configure"]
     trusted_base = ["h11 body readers (ContentLengthReader/ChunkedReader/Http10Reader) as the source of data events",
